@@ -211,7 +211,12 @@ func exchange(c e2eCase, fields []modbus.Field) (map[string][]string, int, strin
 					panicked = p
 				}
 			}()
-			fvs, xerr = r.ExtractFields(resp, c.Lenient)
+			// every other request hands the response over as a struct value instead of the pointer the parsers return
+			if val := derefResp(resp); val != nil && ri%2 == 1 {
+				fvs, xerr = r.ExtractFields(val, c.Lenient)
+			} else {
+				fvs, xerr = r.ExtractFields(resp, c.Lenient)
+			}
 		}()
 		if panicked != nil {
 			return nil, 0, "", fmt.Errorf("ExtractFields panicked on request %d (start %d, %d registers returned): %v", ri, start, got, panicked)
@@ -487,4 +492,18 @@ func TestEveryTypeOnce(t *testing.T) {
 			}
 		}
 	}
+}
+
+func derefResp(resp packet.Response) packet.Response {
+	switch r := resp.(type) {
+	case *packet.ReadHoldingRegistersResponseTCP:
+		return *r
+	case *packet.ReadHoldingRegistersResponseRTU:
+		return *r
+	case *packet.ReadInputRegistersResponseTCP:
+		return *r
+	case *packet.ReadInputRegistersResponseRTU:
+		return *r
+	}
+	return nil
 }
